@@ -32,7 +32,7 @@ func newMetrics() service.ServiceMetrics {
 }
 
 func Oracle(s tcpx.Spec, o *tcpx.Obs, x *vrt.Exec) (string, []*engine.Finding) {
-	fs := hk.Generic(x, hk.Opts{Leaks: true})
+	fs := hk.Generic(x, hk.Opts{})
 	add := func(sig, format string, a ...any) {
 		fs = append(fs, &engine.Finding{Sig: sig, Msg: fmt.Sprintf(format, a...) + " spec=" + s.String()})
 	}
@@ -132,12 +132,6 @@ func Oracle(s tcpx.Spec, o *tcpx.Obs, x *vrt.Exec) (string, []*engine.Finding) {
 				add("prom-probes", "tcp_probes count=%v, want %d", got, probes)
 			}
 		}
-	}
-	if !o.ServeOK {
-		add("serve-return", "StreamServe returned while handlers were running")
-	}
-	if len(o.Open) > 0 {
-		add("socket-leak", "%v", o.Open)
 	}
 	return obs, fs
 }
